@@ -149,7 +149,10 @@ where
     pub fn new(target: D, proposal: Q, initial_states: Vec<Vec<S>>) -> Self {
         let chains = initial_states
             .into_iter()
-            .map(|s| MHMarkovChain::new(target.clone(), proposal.clone(), s))
+            .map(|s| {
+                let chain_proposal = proposal.clone().set_seed(rand::rng().random::<u64>());
+                MHMarkovChain::new(target.clone(), chain_proposal, s)
+            })
             .collect();
         Self {
             target,
